@@ -1,4 +1,5 @@
 """C14 -- returned signatures are drop-in inspect.Signature objects."""
+import inspect
 import time
 from .. import monitor, mon_dropin, w_alg
 
@@ -42,6 +43,7 @@ def run(ctx):
     ctx.deadline = saved
     ctx.exhaustive.clear()
     drive_closures(ctx)
+    drive_constructors(ctx)
     from .. import w_misc
     w_misc.drive_retrieval_clients(ctx, ctx.tier)
 
@@ -80,6 +82,39 @@ def drive_closures(ctx):
         src = CLOSURE_SRC if not eager else CLOSURE_SRC.replace('from __future__ import annotations\n', '')
         g = sigs.compile_module(src.lstrip('\n'), globs={'T': int, 'U': str}, tag='vclosure')
         g['make'](observe)
+
+
+def drive_constructors(ctx):
+    """The constructors the upgraded type inherits from inspect.Signature (from_callable) and its own
+    (parameters given as a generator, as plain objects): what comes back is judged like any other signature."""
+    import warnings
+    from sigtools import _signatures
+    from .. import sigs
+    S, P = _signatures.UpgradedSignature, _signatures.UpgradedParameter
+    m = mon_dropin.DropIn(ctx)
+    rnd = ctx.rng('constructors')
+    pool = w_alg.MetaPool(rnd, anns=('1', '2', "'x'"))
+    U = sigs.U(('a', 'b', 'c'), 3, stars=sigs.STARS2[:1])
+    for i in range({'quick': 150, 'thorough': 5000}[ctx.tier] // max(1, ctx.nshards)):
+        params = pool.decorate(rnd.choice(U))
+        f = sigs.make_func(params, name='ctor%d' % i)
+        with warnings.catch_warnings():
+            warnings.simplefilter('ignore')
+            for label, build in (('UpgradedSignature.from_callable(f)', lambda: S.from_callable(f)),
+                                 ('UpgradedSignature(<generator of plain parameters>)',
+                                  lambda: S(q for q in inspect.signature(f).parameters.values()))):
+                ctx.count('C14.constructor_results')
+                try:
+                    r = build()
+                except Exception as e:
+                    m.V('constructor-raises-%s' % type(e).__name__, '%s raised %s' % (label, type(e).__name__), {'signature': str(inspect.signature(f))})
+                    continue
+                bare = [q.name for q in r.parameters.values() if not isinstance(q, P)]
+                if not isinstance(r, S) or bare:
+                    m.V('constructor-returns-plain-objects', '%s returned %s with bare parameters %s' % (label, type(r).__name__, bare),
+                        {'signature': str(r)})
+                else:
+                    m.check(r, 'constructor')
 
 
 def replay(ctx, rec):
